@@ -194,6 +194,7 @@ func (u *Unit) enterBlock(st *State, fr *Frame, b, pred *ssa.BasicBlock) {
 	if u.expired() || st.Dead {
 		return
 	}
+	st.Trace = append(st.Trace, fmt.Sprintf("%s#%d", fr.Fn.Name(), b.Index))
 	loops := u.loopsOf(fr.Fn)
 	if li, ok := loops[b]; ok {
 		if fr.LoopSeen[b] {
@@ -231,7 +232,10 @@ func (u *Unit) exec(st *State, fr *Frame, b *ssa.BasicBlock, i int, pred *ssa.Ba
 				return
 			}
 			tFeas := u.Feasible(st, c)
-			fFeas := u.Feasible(st, Not(c))
+			fFeas := true
+			if tFeas {
+				fFeas = u.Feasible(st, Not(c))
+			}
 			if tFeas && fFeas {
 				st2, fr2 := st.Clone(), fr.cloneFor()
 				st2.Assume(c)
@@ -509,7 +513,7 @@ func (u *Unit) noteZeroSlice(st *State, s Term, elem types.Type) {
 		if !ok {
 			continue
 		}
-		old := st.Mem[key]
+		old := u.curMem(st, key)
 		nm := u.Fresh("Mz_"+shorten(sanitize(key), 30), ArrSort(SV, so))
 		zero := u.zeroOfSort(so)
 		d := &MemDeriv{Old: old, Elem: so, Kind: "frame", Modified: func(addr Term) Term {
